@@ -75,6 +75,12 @@ def interp(rec, owner, script, env, thread_path=()):
                 lcc.log_url("http://x/%d" % a[1], "%s|%d" % (tag, a[1]))
             elif op == "attach":
                 lcc.save_attachment_content("%s|%d" % (tag, a[1]), "att%d.txt" % a[1], "%s|%d" % (tag, a[1]))
+            elif op == "attach_ctx":
+                # API form outside the Coq model (oracle-only batches): user code runs INSIDE the prepare_attachment block
+                with lcc.prepare_attachment("att%d.txt" % a[1], "%s|%d" % (tag, a[1])) as path:
+                    with open(path, "w") as fh:
+                        fh.write("%s|%d" % (tag, a[1]))
+                    interp(rec, owner, a[2], env, thread_path)
             elif op == "step":
                 lcc.set_step("%s|step%d" % (tag, a[1]))
             elif op == "mark":
@@ -85,7 +91,9 @@ def interp(rec, owner, script, env, thread_path=()):
             elif op == "spawn":
                 child = thread_path + (nspawn,)
                 nspawn += 1
-                th = rec.thread_class(target=interp, args=(rec, owner, a[1], env, child))
+                # every user thread gets the SAME explicit name: names are not identities (the framework must key its per-thread
+                # state by the thread, not by what the user called it)
+                th = rec.thread_class(target=interp, args=(rec, owner, a[1], env, child), name="worker")
                 spawned.append((th, child))
                 rec.record("spawn", owner, list(child), getattr(th, "_cname", None))
                 th.start()
